@@ -4,7 +4,9 @@ set -u
 patch=$1; id=$2; tier=${3:-quick}
 cd /repo && git diff --quiet || { echo "repo dirty"; exit 9; }
 git -C /repo apply "$patch" || { echo "patch does not apply"; exit 9; }
+mkdir -p /verif/build/evsave && cp /verif/evidence/$id.json /verif/build/evsave/$id.json 2>/dev/null
 cd /verif && ./check $id --tier $tier; rc=$?
+cp /verif/build/evsave/$id.json /verif/evidence/$id.json 2>/dev/null
 git -C /repo checkout -- . ; git -C /repo clean -fdq
 echo "seedrun rc=$rc"
 exit $rc
